@@ -43,10 +43,56 @@ def classes(h):
         out.append('dest_moved')
     if 'queue_prelude' in h.flags:
         out.append('queue_prelude')
+    if 'backport_prelude' in h.flags:
+        out.append('backport_prelude')
     return out
 
 
+def backport_prelude(data, hist):
+    """The same commits reach a newer branch first (work started on an
+    older branch, proposed to a newer one) and are then proposed to the
+    older branch: the forward-port of the second PR has nothing new to
+    bring to the newer branches but their merge commits."""
+    from hypothesis import strategies as st
+    from vf.sim.world import AUTHOR, PEER1, PEER2
+    w = hist.world
+    chain = [n for n in w.chain if n in w.heads()]
+    if len(chain) < 2:
+        return
+    i = data.draw(st.integers(0, len(chain) - 2), label='older')
+    j = data.draw(st.integers(i + 1, len(chain) - 1), label='newer')
+
+    def merge(pr):
+        for u in (PEER1, PEER2, AUTHOR):
+            hist.apply({'op': 'approve', 'pr': pr, 'user': u})
+        for _ in range(2):
+            hist.apply({'op': 'pr_event', 'pr': pr})
+            hist.apply({'op': 'report_pr', 'pr': pr, 'state': 'SUCCESSFUL'})
+        hist.apply({'op': 'pr_event', 'pr': pr})
+        if w.mode != 'noqueue':
+            hist.apply({'op': 'report_queue', 'states': ['SUCCESSFUL']})
+            qs = sorted(n for n in w.heads() if n.startswith('q/') and
+                        not n.startswith('q/w/'))
+            if qs:
+                hist.apply({'op': 'commit_event', 'sel': {'ref': qs[0]}})
+    hist.apply({'op': 'open_pr', 'src': 'bugfix/TEST-1-bp', 'dst': chain[j],
+                'author': AUTHOR, 'base_back': 0, 'base_branch': chain[i]})
+    if not w.prs:
+        return
+    a = max(w.prs)
+    merge(a)
+    hist.apply({'op': 'open_pr', 'src': 'bugfix/TEST-2-bp', 'dst': chain[i],
+                'author': AUTHOR, 'same_as': a})
+    b = max(w.prs)
+    if b != a:
+        merge(b)
+    hist.flags.add('backport_prelude')
+
+
 def prelude(data, hist):
+    from hypothesis import strategies as st
+    if data.draw(st.integers(0, 5), label='backport') == 0:
+        return backport_prelude(data, hist)
     # uniform histories rarely hold several queued PRs at once: in half of
     # the queue-mode histories start with k PRs queued and a generated
     # status matrix (same prelude as C03)
